@@ -335,6 +335,8 @@ bare NCName) `split_qname` returns the expanded name an independent reading give
 theorem clark_split_agree (q : Str) (n : EName) (h : clark q = some n) : splitQName q = .ok n :=
   Proofs.MapInv.clark_splitQName q n h
 
+example : clark (inA ['R']) = some (some urnA, ['R']) ∧ clark ['R'] = some (none, ['R']) := by decide
+
 /-! ## Hostile text: what `escape` / `quoteattr` write can be read back and carries no markup -/
 
 /-- **escape_inverse**: for every string, character data written through
